@@ -48,7 +48,8 @@ def gen_c13_random(rnd, tier):
         T = {'M': M, 'H': a[2] * b[2], 't': [rnd.randint(-20, 20) for _k in range(3)]}
         op = rnd.choice(('section', 'split'))
         out.append({'m': 'section', 'op': op, 'wd': 4000, 'name': 'rbox', 'vpos': vpos, 'faces': BOXF,
-                    'convex': True, 'n': nrm, 'dn': dn, 'dd': 8, 'T': T, 'sc': rnd.choice((0, 0, -10, -7, 3)), 'solid': rnd.choice((0, 0, 1, 2)) if op == 'split' else rnd.choice((0, 1))})     # (a hull is re-triangulated: only the split clauses apply to it)
+                    'convex': True, 'n': nrm, 'dn': dn, 'dd': 8, 'T': T, 'sc': rnd.choice((0, 0, -10, -7, 3)), 'solid': rnd.choice((0, 0, 1, 2)) if op == 'split' else rnd.choice((0, 1)),      # (a hull is re-triangulated: only the split clauses apply to it)
+                    'far': rnd.choice(([0, 0, 0], [0, 0, 0], [100000, -30000, 70000], [1 << 20, 1 << 19, -(1 << 20)]))})
     return out
 
 
